@@ -292,11 +292,11 @@ def replay_file(ctx, path):
     txt = "\n".join(l for l in open(path).read().split("\n") if not l.startswith("#"))
     scn = json.loads(txt)
     stats, problems = process([scn])
-    for s, fails, diffs in problems:
-        for x in fails + diffs:
-            print("  ", x)
-    report(ctx, problems)
-    return stats
+    if ctx.replay:
+        for s, fails, diffs in problems:
+            for x in fails + diffs:
+                print("  ", x)
+    return stats, problems
 
 
 def run(ctx):
@@ -309,13 +309,18 @@ def run(ctx):
     all_problems = []
 
     if ctx.replay:
-        _merge(total, replay_file(ctx, ctx.replay))
+        stats, all_problems = replay_file(ctx, ctx.replay)
+        _merge(total, stats)
+        report(ctx, all_problems)
     else:
         corpus = os.path.join(VERIF, "corpus", "C08")
         if os.path.isdir(corpus):
             for fn in sorted(os.listdir(corpus)):
                 if fn.endswith(".json"):
-                    _merge(total, replay_file(ctx, os.path.join(corpus, fn)))
+                    stats, problems = replay_file(ctx, os.path.join(corpus, fn))
+                    _merge(total, stats)
+                    all_problems += problems
+                    ctx.coverage["corpus_replayed"] = ctx.coverage.get("corpus_replayed", 0) + 1
         run_findings(ctx)
         thorough = ctx.tier == "thorough"
         n_random = 300000 if thorough else 20000
@@ -348,7 +353,7 @@ def run(ctx):
                 families=small)
         ctx.coverage["generation_s"] = round(time.time() - t0, 1)
         ctx.coverage["exhaustive"] = False   # the property's input space is infinite; see exhaustive_small_scope
-        report(ctx, sorted(all_problems, key=lambda p: (not p[1], len(json.dumps(p[0])))))
+        report(ctx, sorted(all_problems, key=lambda p: (not p[1], len(json.dumps(p[0])))), limit=4)
 
     ctx.coverage["evaluations"] = total.get("evaluations", 0)
     ctx.coverage["distinct_nontrivial"] = len(total.get("nontrivial", ()))
